@@ -30,6 +30,7 @@ func runC19(seed uint64, cs, gi, histories int) c19Result {
 		p.Late = []string{fmt.Sprintf("F%d", 100000+cs*4000+gi*50+h), "S11", fmt.Sprintf("X%d", 100000+cs*4000+gi*50+h)}
 		p.W["RegisterType"] = 2
 		p.W["ResRegister"], p.W["ResAdd"], p.W["ResRemove"] = 1, 2, 1
+		p.W["DumpJSON"], p.W["Stats"] = 3, 2 // every world saves itself now and then
 		var s *Sess
 		if h%3 == 1 {
 			// generic API, filter package and listener package as well: their package-level state is shared too
